@@ -70,6 +70,10 @@ def cacheTTL (exp nowMs : Int) : Int :=
 def serverExpire (arrivalNs pttl : Int) : Int :=
   if pttl ≥ 0 then pack (unixMilli (arrivalNs + pttl * 1000000)) else 0
 
+/-- the argument pipe.go gives to `setExpireAt` on arrival (`0`: the field stays empty) -/
+def serverRaw (arrivalNs pttl : Int) : Int :=
+  if pttl ≥ 0 then unixMilli (arrivalNs + pttl * 1000000) else 0
+
 /-! ### lru.go state -/
 
 structure Entry where
@@ -232,6 +236,12 @@ def evictLoop (max : Int) : Int → List Entry → Int × List Entry × List Ent
 
 /-- `min` rule of `Update`: `if cpttl < pxat || pxat == 0 { pxat = cpttl }` -/
 def chooseExp (cpttl pxat : Int) : Int := if cpttl < pxat ∨ pxat = 0 then cpttl else pxat
+
+/-- the expiry with which the reply of one cached read is committed: the call started at `startNs` with client TTL
+    `ttlNs` (`Flight`), its reply arrived at `arrivalNs` carrying the server's `PTTL` answer `pttl` (reader loop +
+    `Update`) -/
+def expiryOf (startNs ttlNs arrivalNs pttl : Int) : Int :=
+  chooseExp (pack (unixMilli (startNs + ttlNs))) (pack (serverRaw arrivalNs pttl))
 
 /-- `Update(key, cmd, value)`; `vsz = value.approximateSize()`, `raw` is what was last given to
     `value.setExpireAt` (0 if never set). Returns `pxat`. -/
